@@ -19,12 +19,25 @@ def run(pid, tier):
         max_gen = 3 if i < ncases - max(4, ncases // 4) else (0 if i % 2 == 0 else 1)
         c.update({'maxGenerations': max_gen, 'threads': 1, 'kmax': kmax, 'stride': stride, 'realtime': i < (1 if tier == 'quick' else 4)})
         cases.append(c)
+    # one problem whose break has a place with and a place without location (documented input: `places` are alternatives, the
+    # location is optional): the recorded finding, kept under watch
+    mixed = None
+    for _ in range(400):
+        c = pgen.make_case(rnd.randrange(1 << 30), 'tiny', features={'breaks': True, 'mixed_break_places': True, 'travel_only': False, 'unreachable': False})
+        if any(len({('location' in p) for p in b.get('places', [])}) == 2 for v in c['problem']['fleet']['vehicles'] for sh in v['shifts'] for b in sh.get('breaks', [])):
+            mixed = c
+            break
+    if mixed is not None:
+        mixed.update({'maxGenerations': 3, 'threads': 1, 'kmax': 3, 'stride': 50, 'realtime': False})
+        cases.append(mixed)
+    MIXED = 'break with multiple places is not supported'
     d = common.workdir(pid + '-quota')
     fin, fout = os.path.join(d, 'cases.ndjson'), os.path.join(d, 'runs.ndjson')
     common.write_ndjson(fin, cases)
     common.run_bin('quota', ['--in', fin, '--out', fout, '--jobs', 10], timeout=7000, log=os.path.join(d, 'quota.log'), package='vh-prag')
     cases_by_id = {c['id']: c for c in cases}
     runs = [r for r in common.read_ndjson(fout) if r['mode'] != 'read']
+    panicked_mixed = [r for r in runs if mixed is not None and r['id'] == mixed['id'] and MIXED in r.get('error', '')]
     invalid = sum(1 for r in common.read_ndjson(fout) if r['mode'] == 'read')
     if not runs:
         raise ToolError('no runs recorded')
@@ -41,13 +54,15 @@ def run(pid, tier):
         rid = '%s-%s-%s' % (r['id'], r['mode'], r['k'])
         if r['status'] != 'ok':
             what = 'before-first-initial' if (r['mode'] in ('term', 'realtime') and r['k'] == 0) else r['mode']
+            if mixed is not None and r['id'] == mixed['id'] and MIXED in r.get('error', ''):
+                what = 'break-places-with-and-without-location'
             verdict.add('C07/ReturnsSolution/%s' % what, 'run %s: solver returned %s (%s) after events "%s"' % (rid, r['status'], r.get('error', '')[:120], r['events'][:80]),
                         {'case': cases_by_id[r['id']], 'run': {k: v for k, v in r.items() if k != 'solution'}})
     # 3. trace validation against the control-loop model (single-threaded runs, events in call order)
     trace, rejected, tv_states, tv_trans = [], [], 0, 0
     # one trace file (and one configuration of TraceSolver.tla) per configured maximum
     for max_gen in sorted({cases_by_id[r['id']]['maxGenerations'] for r in runs}):
-        group = [r for r in runs if cases_by_id[r['id']]['maxGenerations'] == max_gen]
+        group = [r for r in runs if cases_by_id[r['id']]['maxGenerations'] == max_gen and r not in panicked_mixed]
         tg = []
         for r in group:
             ev = [{'e': x[0], 'b': x[1] == '1'} for x in r['events'].split()] if r['events'] else []
